@@ -362,6 +362,14 @@ def check_table(idx, run, rule, table):
         floor = spec.get("raises")
         if floor is not None:
             nraise = reachable_refusals(func)
+            if nraise < floor:
+                # checks moved into helper methods of the class still count
+                from .guards import refusals as _refusals
+
+                def resolver(name, owner=owner):
+                    got = idx.find_method(owner, name)
+                    return got[1] if got else None
+                nraise = max(nraise, len(_refusals(func, resolver)))
             run.check(
                 rule, nraise >= floor, cons, "number of refusals",
                 f"{cons} has {nraise} refusal statements, the reviewed "
